@@ -485,8 +485,9 @@ pub fn check_roundtrip(w: &Workload, world: World) -> (Result<(), (String, Strin
                     return Err(("bases-differ".into(), describe_diff(&s.name, en, gd, ed)));
                 }
             }
-            // per-contig extraction agrees (first and last contig)
-            for idx in [0, s.contigs.len() - 1] {
+            // per-contig extraction by name agrees: every contig of small samples, else first and last
+            let which: Vec<usize> = if s.contigs.len() <= 12 { (0..s.contigs.len()).collect() } else { vec![0, s.contigs.len() - 1] };
+            for idx in which {
                 let (en, ed) = &s.contigs[idx];
                 let one = d
                     .get_contig(&s.name, en.trim())
